@@ -277,8 +277,10 @@ example :
     errOf (fromString unitOps genTables "G" "foo 0; bar 1".toList) = some (.unknownGate "foo".toList) := by
   decide +kernel
 
-/-- Negative witness for the finding `C15-doc-example-rejected`: the second example of the documentation of
-`from_string` is rejected — `X1` is read as a name without qubits. -/
+/-- Recorded behaviour (not a finding): the second example in the doc comment of `from_string` ends in `X1`, which is a
+name without qubits — digits glued to a name belong to the name (`U1`, `U2`, `U3` need that) — so, as the property
+demands for a part without qubits, it is rejected with `NoBits("X1")`; the example is a typo of `X 1`, which is accepted.
+The first example of the doc comment is accepted. -/
 theorem doc_example_rejected :
     okShape (fromString unitOps genTables "G" "H 1; CX 0 1; H 1".toList) = some (2, [[1], [0, 1], [1]]) ∧
     errOf (fromString unitOps genTables "G" "RY(4.7124) 1; CX 1 0; RY(1.5708) 1; X1".toList) =
